@@ -148,6 +148,19 @@ def record_session(rng, noise: bool, names: list[str], nwrites: int):
                 (tr.protocol.pause_writing if paused else tr.protocol.resume_writing)()
                 L.run_until_idle()
                 events.append({"sig": "pause" if paused else "resume", "pk": [], "writes": tr.write_calls - calls, "exact": True})
+            if rng.random() < 0.06:
+                # a batch with an element that is no protocol message: refused as a whole - nothing written, no nonce used
+                bad = [sample_message(rng, rng.choice(names)) for _ in range(rng.choice((1, 2, 3)))] + [object()]
+                if rng.random() < 0.5:
+                    bad.insert(0, bad.pop())
+                calls = tr.write_calls
+                raw_before = len(tr.writes)
+                raised = False
+                try:
+                    w.conn.send_messages(tuple(bad))
+                except Exception:  # noqa: BLE001
+                    raised = True
+                events.append({"sig": "reject", "pk": [], "writes": tr.write_calls - calls, "exact": raised and len(tr.writes) == raw_before})
             batch = [sample_message(rng, rng.choice(names)) for _ in range(rng.choice((1, 1, 1, 2, 3, 5)))]
             nbefore = len(codec.client_msgs)
             raw_before = len(tr.writes)
@@ -201,6 +214,39 @@ def record_session(rng, noise: bool, names: list[str], nwrites: int):
         w.close()
 
 
+def record_raw_plain(rng):
+    """A long sequence of write_packets calls on one plaintext helper over few types and lengths that differ by
+    multiples of 2^16 (a header cache keyed on a truncated length is fooled by them) -> trace for TraceWriter."""
+    from aioesphomeapi._frame_helper.plain_text import APIPlaintextFrameHelper
+
+    loop = simloop.new_loop()
+    try:
+        conn = devices.RecordingConnection()
+        helper = APIPlaintextFrameHelper(connection=conn, client_info="v", log_name="v")
+        tr = simnet.SimTransport(loop, simnet.SimSocket(), helper)
+        loop.run_until_idle()
+        types = [1, 2, 127, 128, 300]
+        base = [0, 1, 12, 127, 128, 255, 256]
+        lens = base + [b + 65536 for b in base] + [b + 131072 for b in (0, 12)] + [65535, 65536 * 2 - 1]
+        events = []
+        for _ in range(120):
+            batch = [(rng.choice(types), rng.choice(lens)) for _ in range(rng.choice((1, 1, 2)))]
+            payloads = [rng.randbytes(n) for _, n in batch]
+            before, calls = len(tr.writes), tr.write_calls
+            helper.write_packets([(t, p) for (t, _), p in zip(batch, payloads)], False)
+            data = b"".join(tr.writes[before:])
+            pk, pos, exact = [], 0, True
+            for (t, n), p in zip(batch, payloads):
+                hl = len(devices.plain_header(t, n))
+                pk.append({"type": t, "plen": n, "hdr": list(data[pos : pos + hl])})
+                exact = exact and data[pos + hl : pos + hl + n] == p
+                pos += hl + n
+            events.append({"sig": "", "pk": pk, "writes": tr.write_calls - calls, "exact": exact and pos == len(data)})
+        return {"mode": "plain", "tx0": 0, "events": events}
+    finally:
+        loop.shutdown()
+
+
 def run(ctx):
     logging.disable(logging.CRITICAL)
     rng = random.Random(ctx.seed + 2)
@@ -233,6 +279,9 @@ def run(ctx):
     for i in range(nsess):
         traces.append(record_session(rng, noise=(i % 2 == 1), names=names, nwrites=rng.randrange(100, 401)))
         ctx.case(("session", i, traces[-1]["mode"], len(traces[-1]["events"])))
+    for i in range(4 if ctx.quick else 40):
+        traces.append(record_raw_plain(rng))
+        ctx.case(("raw-plain-session", i))
     rej = tracecheck.validate(ctx, "TraceWriter", traces, batch=20)
     for idx, line in rej:
         t = traces[idx]
